@@ -151,7 +151,7 @@ fn check(c: &Case, ctx: &Ctx) -> Outcome {
 const RULE: &str = "differential between the tool's two output formats on C04's generator (same inputs and flags): parse ska map -f vcf and -f aln; a record at (contig, 1-based pos) iff some sample's aligned character differs from the upper-case reference base; REF = reference base (N if not ACGT); ALT distinct; every genotype decodes through REF/ALT to the aligned character ('.' for '-', N for ambiguity codes); ##contig order/names and sample columns as in the inputs; no duplicate or out-of-order records. Non-trivial: >=1 record.";
 
 fn stages(tier: Tier) -> Vec<Box<dyn Stage>> {
-    vec![gen_stage_show("vcf_vs_aln", RULE, tier.pick(1200, 20_000), 250, c04::case_strategy, check, c04::show)]
+    vec![gen_stage_show("vcf_vs_aln", RULE, tier.pick(3200, 40_000), 250, c04::case_strategy, check, c04::show)]
 }
 
 pub fn def() -> PropDef {
